@@ -336,6 +336,8 @@ class H2Protocol:
                     except priority.MissingStreamError:
                         pass
                 await self._window_updated(event.stream_id)
+                # It may have been the last stream in progress
+                await self.send(Updated(idle=self.idle))
             elif isinstance(event, h2.events.WindowUpdated):
                 await self._window_updated(event.stream_id)
             elif isinstance(event, h2.events.PriorityUpdated):
